@@ -157,13 +157,15 @@ def run(spec, ctx):
         cls_ids = {id(w.instance) for lst in per_class.values() for w in lst if w.instance is not None}
         if dead_nodes:
             C["dead_nodes_seen_after_query"] += dead_nodes     # C20's business (bookkeeping), not a C13 failure
+        # observations about the registry's internal indexes (evidence only: another implementation may organise
+        # them differently; the census above is what decides the property)
         if not live <= node_ids:
-            problems.append(f"{label}: {len(live - node_ids)} live instances have no node in the instance graph")
+            C["obs:live_instances_without_graph_node"] += len(live - node_ids)
         if node_ids != cls_ids:
-            problems.append(f"{label}: per-class lists and graph nodes disagree ({len(node_ids ^ cls_ids)} instances)")
+            C["obs:class_lists_and_graph_nodes_disagree"] += len(node_ids ^ cls_ids)
         idx_live = {k for k, w in index.items() if w.instance is not None and id(w.instance) == k}
         if not live <= idx_live:
-            problems.append(f"{label}: {len(live - idx_live)} live instances are missing from the id index")
+            C["obs:live_instances_missing_from_id_index"] += len(live - idx_live)
 
     for step in spec["steps"]:
         op = step[0]
